@@ -100,7 +100,12 @@ def r3_quote_all(chk: Check) -> None:
     ts = P.func("generation/hypothesis/builder.py:Template._serialize")
     ifs = [n for n in walk_body(ts.node) if isinstance(n, ast.If) and "path_parameters" in unparse(n.test)]
     t = "\n".join(unparse(s, 400) for i in ifs for s in i.body)
-    chk.expect("quote_all(value)" in t, "C06.R3", ts, "coverage template: path_parameters through quote_all", "coverage-phase path parameters are not percent-encoded", ts.loc())
+    qcalls = [c for c in body_calls(ts, into_nested=True) if last_attr(c) == "quote_all"]
+    if not qcalls:
+        # who-must-call: the template is the only place where coverage-phase path parameters can be encoded
+        chk.violation("C06.R3", ts, "coverage template: path_parameters through quote_all", "Template._serialize no longer calls quote_all: coverage-phase path parameters reach the URL unencoded", ts.loc())
+    else:
+        chk.expect("quote_all(value)" in t, "C06.R3", ts, "coverage template: path_parameters through quote_all", "coverage-phase path parameters are not percent-encoded", ts.loc())
     qa = P.func("specs/openapi/_hypothesis.py:quote_all")
     t = unparse(qa.node, 100000)
     chk.expect("'%2E'" in t and "'%2E%2E'" in t and "value == '.'" in t and "value == '..'" in t, "C06.R3", qa, "'.' and '..' encoded as %2E / %2E%2E", "dot segments are sent verbatim and collapse the path", qa.loc())
